@@ -139,14 +139,19 @@ class history {
   }
 
   void run() {
-    Db db;
-    dbp = &db;
+    // after a violation the index is deliberately leaked: its destructor may assert on the broken
+    // state and take the report with it
+    auto* db = new Db;
+    dbp = db;
     for (op = 0; op < nops && ok; ++op) step();
     if (ok && std::is_same_v<K, unodb::key_view> && r.chance(0.3)) length_errors(true);
     if (ok && r.chance(0.3)) length_errors(false);
     dbp = nullptr;
+    if (ok) delete db;
+    else poisoned = true;
     rep().count("histories." + tag);
   }
+  bool poisoned{false};
 
  private:
   void fail(const std::string& oracle, const std::string& what, json w = json::object()) {
@@ -414,8 +419,9 @@ void qsbr_case(vh::rng& r) {
   rep().count("qsbr_cases");
 }
 
+bool g_poisoned = false;
 template <class Db>
-void run_one(u64 idx, vh::rng& r, const vh::args& a) { history<Db> h(idx, r, a); h.run(); }
+void run_one(u64 idx, vh::rng& r, const vh::args& a) { history<Db> h(idx, r, a); h.run(); g_poisoned |= h.poisoned; }
 
 void fatal_handler(const std::string& kind, const std::string& what) {
   json wj = json::object().set("context", g_context).set("scheduler", what);
@@ -466,6 +472,7 @@ int main(int argc, char** argv) {
       case 5: run_one<unodb::olc_db<unodb::key_view, V>>(c, r, a); break;
       default: qsbr_case(r); break;
     }
+    if (g_poisoned) { rep().set_resume(c + 1); break; }  // continue in a fresh process
     if (vm::alloc_tracker::get().blocks_live() != 0) {
       rep().violation("C08", "oom/leak-after-destruction", "blocks still allocated after the index was destroyed", json::object().set("blocks", static_cast<u64>(vm::alloc_tracker::get().blocks_live())));
       rep().set_resume(c + 1);
@@ -474,5 +481,6 @@ int main(int argc, char** argv) {
     if (rep().violations_for("C08") + rep().violations_for("C14") >= 8) break;
   }
   rep().finish();
+  if (g_poisoned) _exit(0);  // skip destructors / leak checking of the deliberately leaked index
   return 0;
 }
